@@ -32,6 +32,9 @@ type svCase struct {
 	Served      []verServed `json:"served"`
 	GRPCFactory bool        `json:"grpc_factory"`
 	Offered     []int       `json:"offered"`
+	// OfferedJunk: entries that are not numbers, mixed into PLUGIN_PROTOCOL_VERSIONS (they are to be
+	// ignored -- and complained about on stderr only)
+	OfferedJunk []string `json:"offered_junk,omitempty"`
 }
 
 var staticOnce sync.Once
@@ -94,6 +97,13 @@ func runServeCase(c svCase, bin, tmp string) map[string]interface{} {
 		var vs []string
 		for _, v := range c.Offered {
 			vs = append(vs, strconv.Itoa(v))
+		}
+		for i, j := range c.OfferedJunk {
+			if i%2 == 0 {
+				vs = append(vs, j)
+			} else {
+				vs = append([]string{j}, vs...)
+			}
 		}
 		env = append(env, "PLUGIN_PROTOCOL_VERSIONS="+strings.Join(vs, ","))
 	}
